@@ -7,7 +7,8 @@
      KResolve    synthetic page data through the hook VerifResolveLinks
      KBookmarks  synthetic bookmark lists through the hook VerifMakeBookmarkTree
      KGather     a rendered document: the laid-out boxes of every page (pre-order
-                 dump) against what newPage gathered (hook VerifPages)
+                 dump with hit areas) against what newPage gathered (hook VerifPages);
+                 geometry is compared unless a CSS transform applies (flag)
      KDoc        a rendered document written at some zoom: gathered page data ->
                  resolve -> Write loop (float32 instance, bit for bit) against the
                  calls the recording backend received; outline against makeBookmarkTree
@@ -40,7 +41,7 @@ Inductive gitem :=
 Inductive case :=
 | KResolve (pages : list page) (ol : list (list link)) (oa : list (list anchor))
 | KBookmarks (pages : list (list bookmark)) (out : bres)
-| KGather (boxes : list (list box)) (vpages : list page)
+| KGather (geom : bool) (boxes : list (list box)) (vpages : list page)
 | KDoc (zoom : Q) (vpages : list page) (geoms : list geom) (rec : list rpage) (outline : list node)
 | KMeta (els : list melem) (out : meta)
 | KTrace (npages : N) (sep : list N) (t : list call)   (* rules in `sep` are reported by their own KTraceRule case *)
@@ -66,6 +67,8 @@ Definition anchor_eqb (a b : anchor) : bool := name_eqb (aname a) (aname b) && p
 Definition anchor_eqb_nogeom (a b : anchor) : bool := name_eqb (aname a) (aname b).
 Definition bk_eqb_nogeom (a b : bookmark) : bool :=
   (blevel a =? blevel b)%Z && name_eqb (blabel a) (blabel b) && Bool.eqb (bopen a) (bopen b).
+
+Definition bk_eqb (a b : bookmark) : bool := bk_eqb_nogeom a b && pos_eqb (bpos a) (bpos b).
 
 (* same finite set (the lists have no duplicate names on both sides) *)
 Definition set_eqb {A} (eqb : A -> A -> bool) (l1 l2 : list A) : bool :=
@@ -178,12 +181,15 @@ Definition check (c : case) : N :=
       | BForest f, BForest g => if forest_eqb entry_eqb_nolevel f g then 0 else 5
       | _, _ => 4
       end
-  | KGather boxes vpages =>
+  | KGather geom boxes vpages =>
       let gs := map gather boxes in
+      let aeq := if geom then anchor_eqb else anchor_eqb_nogeom in
+      let leq := if geom then link_eqb else link_eqb_nogeom in
+      let beq := if geom then bk_eqb else bk_eqb_nogeom in
       first_code [ (Nat.eqb (length gs) (length vpages), 9);
-                   (list_eqb (set_eqb anchor_eqb_nogeom) (map g_anchors gs) (map p_anchors vpages), 10);
-                   (list_eqb (list_eqb link_eqb_nogeom) (map g_links gs) (map p_links vpages), 11);
-                   (list_eqb (list_eqb bk_eqb_nogeom) (map g_bks gs) (map p_bks vpages), 12) ]
+                   (list_eqb (set_eqb aeq) (map g_anchors gs) (map p_anchors vpages), 10);
+                   (list_eqb (list_eqb leq) (map g_links gs) (map p_links vpages), 11);
+                   (list_eqb (list_eqb beq) (map g_bks gs) (map p_bks vpages), 12) ]
   | KDoc zoom vpages geoms rec outline =>
       let m := model_doc zoom vpages geoms in
       first_code [ (Nat.eqb (length vpages) (length geoms), 9);
@@ -221,7 +227,7 @@ Definition model_out (c : case) : mout :=
   match c with
   | KResolve pages _ _ => let '(ls, ans) := resolve pages in MResolve ls ans
   | KBookmarks pages _ => MBook (model_bookmarks pages)
-  | KGather boxes _ => MGather (map gather boxes)
+  | KGather _ boxes _ => MGather (map gather boxes)
   | KDoc zoom vpages geoms _ _ => MDoc (model_doc zoom vpages geoms) (model_outline vpages)
   | KMeta els _ => MMetaOut (get_metadata els)
   | KTrace _ _ t | KTraceRule _ t => let '(v, st) := monitor t in MViol v (Protocol.npages st)
